@@ -611,7 +611,8 @@ class Parser:
                 flags |= self.RE_FLAG_MAP[flag]
         try:
             return RegexLiteral(value=re.compile(pattern, flags))
-        except re.error as err:
+        except (re.error, ValueError) as err:
+            # ValueError for incompatible flags, like an inline (?u) with /a.
             raise JSONPathSyntaxError(
                 f"invalid regular expression, {err}", token=stream.current
             ) from err
